@@ -194,3 +194,52 @@ def laws(F):
     L.eq(mul(F['q_invert'](q), q), one())
     out.append(L)
     return out
+
+
+def handwritten_laws():
+    """laws derived by composing the proved ones (pass A only)"""
+    return '''
+pub open spec fn q_pure(v: Vector3<Sc>) -> Quaternion<Sc> { Quaternion { v: v, s: s_zero() } }
+// |q * v| = |v| for unit q: from the sandwich law and the multiplicativity of the norm
+pub proof fn law_q_length(q: Quaternion<Sc>, v: Vector3<Sc>)
+    requires q_magnitude2(q)@ == 1real
+    ensures v3_dot(q_rotv(q, v), q_rotv(q, v))@ == v3_dot(v, v)@,
+{
+    let pv = q_pure(v);
+    let w = q_pure(q_rotv(q, v));
+    law_q_sandwich(q, v);
+    assert(w == q_mul(q_mul(q, pv), q_conj(q)));
+    law_q_ring(q_mul(q, pv), q_conj(q), q);
+    law_q_ring(q, pv, q);
+    law_q_ring(q, q, q);
+    let a = q_magnitude2(q)@;
+    let b = q_magnitude2(pv)@;
+    assert(q_magnitude2(w)@ == (a * b) * a);
+    assert((a * b) * a == b) by(nonlinear_arith) requires a == 1real;
+    assert(q_magnitude2(w)@ == 0real * 0real + v3_dot(q_rotv(q, v), q_rotv(q, v))@);
+    assert(q_magnitude2(pv)@ == 0real * 0real + v3_dot(v, v)@);
+}
+// (p * q) * v = p * (q * v) for unit p, q: sandwich law three times, associativity, conj(pq) = conj q conj p
+pub proof fn law_q_action(p: Quaternion<Sc>, q: Quaternion<Sc>, v: Vector3<Sc>)
+    requires q_magnitude2(p)@ == 1real, q_magnitude2(q)@ == 1real
+    ensures q_rotv(q_mul(p, q), v) == q_rotv(p, q_rotv(q, v)),
+{
+    let pq = q_mul(p, q);
+    let pv = q_pure(v);
+    let cp = q_conj(p);
+    let cq = q_conj(q);
+    let rv = q_rotv(q, v);
+    law_q_ring(p, q, q);                       // |pq|^2 = |p|^2 |q|^2, conj(pq) = cq cp
+    assert(q_magnitude2(pq)@ == q_magnitude2(p)@ * q_magnitude2(q)@);
+    assert(q_magnitude2(p)@ * q_magnitude2(q)@ == 1real) by(nonlinear_arith) requires q_magnitude2(p)@ == 1real, q_magnitude2(q)@ == 1real;
+    law_q_sandwich(pq, v);                     // (rotv(pq, v), 0) = (pq) pv conj(pq)
+    law_q_sandwich(q, v);                      // (rv, 0) = (q pv) cq
+    law_q_sandwich(p, rv);                     // (rotv(p, rv), 0) = (p (rv,0)) cp
+    assert(q_conj(pq) == q_mul(cq, cp));
+    law_q_ring(p, q, pv);                      // (p q) pv = p (q pv)
+    law_q_ring(p, q_mul(q, pv), q_mul(cq, cp));   // (p (q pv)) (cq cp) = p ((q pv) (cq cp))
+    law_q_ring(q_mul(q, pv), cq, cp);          // ((q pv) cq) cp = (q pv) (cq cp)
+    law_q_ring(p, q_pure(rv), cp);             // (p (rv,0)) cp = p ((rv,0) cp)
+    assert(q_pure(q_rotv(pq, v)) == q_pure(q_rotv(p, rv)));
+}
+'''
